@@ -38,6 +38,11 @@ theorem sendMsgR_ok (env : Env) {m : Msg} (hm : isNew m = true) : ROk i (sendMsg
 
 attribute [local irreducible] sendMsgR
 
+theorem sendMsgR_ok_unencodable (env : Env) {m : Msg} (hm : unencodable m = true) : ROk i (sendMsgR env m) := by
+  unfold sendMsgR sendCoreR
+  exact ROk.bind (sendGateR_ok m) fun _ =>
+    ROk.bind (ROk.liftM (sendCore_spec_unencodable env hm)) fun _ => ROk.yield _
+
 theorem isNew_mk' {ty : String} {tags : List (Nat × String)} (h1 : (ty == mSequenceReset) = false)
     (h2 : Msg.lookup tPossDupFlag tags = none) : isNew (Msg.mk' ty tags) = true := by
   simp [isNew, Msg.mk', Msg.get?, h1, h2]
